@@ -981,6 +981,12 @@ class Vector():
 	def __pow__(self, other):
 		return self._elementwise_operation(other, operator.pow, '__pow__', '**')
 
+	def _radd_dtype(self, vals):
+		"""dtype of a reflected-add result: inferred from the values, as __add__ does"""
+		if any(v is not None for v in vals):
+			return infer_dtype(vals)
+		return self._dtype
+
 	def __radd__(self, other):
 		"""Reverse addition: other + self (handles strings specially)"""
 		other = self._check_duplicate(other)
@@ -995,7 +1001,7 @@ class Vector():
 					vals.append(None)
 				else:
 					vals.append(x + y)
-			return Vector(vals, dtype=self._dtype, name=None, as_row=self._display_as_row)
+			return Vector(vals, dtype=self._radd_dtype(vals), name=None, as_row=self._display_as_row)
 		
 		# Scalar + Vector
 		if not isinstance(other, Iterable) or isinstance(other, (str, bytes, bytearray)):
@@ -1005,7 +1011,7 @@ class Vector():
 					vals.append(None)
 				else:
 					vals.append(other + x)
-			return Vector(vals, dtype=self._dtype, name=None, as_row=self._display_as_row)
+			return Vector(vals, dtype=self._radd_dtype(vals), name=None, as_row=self._display_as_row)
 		
 		# Iterable + Vector
 		if isinstance(other, Iterable) and not isinstance(other, (str, bytes, bytearray)):
@@ -1017,7 +1023,7 @@ class Vector():
 					vals.append(None)
 				else:
 					vals.append(x + y)
-			return Vector(vals, dtype=self._dtype, name=None, as_row=self._display_as_row)
+			return Vector(vals, dtype=self._radd_dtype(vals), name=None, as_row=self._display_as_row)
 		
 		raise SerifTypeError(f"Unsupported operand type: {type(other).__name__}")
 
